@@ -154,5 +154,5 @@ T_C19_AppendOnly == [][NoReset => (/\ Len(store'[c0].vouchers) >= Len(store[c0].
                                    /\ Len(store'[c0].results) >= Len(store[c0].results)
                                    /\ SubSeq(store'[c0].results, 1, Len(store[c0].results)) = store[c0].results)]_tvars
 (* the real CleanupChannel / Unprotect calls never run ahead of the endings that were applied *)
-T_C09_Counts == env[c0].cleanups <= hist[c0].endings + (IF hist[c0].nc THEN 1 ELSE 0) /\ env[c0].unprotects <= env[c0].cleanups
+T_C09_Counts == env[c0].cleanups <= hist[c0].endings + hist[c0].reruns /\ env[c0].unprotects <= env[c0].cleanups
 =============================================================================
